@@ -1001,6 +1001,15 @@ class SVal:
         if callee == 'builtins.len' and len(bound) == 1 and bound[0][1][0] in ('tuple', 'list') and not any(
                 isinstance(x, tuple) and x and x[0] in ('when', 'each', 'star') for x in bound[0][1][1]):
             term = const(len(bound[0][1][1]))
+        # a small literal table read with .get(key, default) is the chain of conditionals it abbreviates
+        if name == 'get' and recv is not None and recv[0] == 'dict' and 1 <= len(bound) <= 2 and 0 < len(recv[1]) <= 8 \
+                and all(isinstance(x, tuple) and len(x) == 2 and x[0][0] in ('const', 'global') for x in recv[1]) \
+                and not e.keywords and all(t[0] != 'star' for _, t in bound):
+            key = bound[0][1]
+            out = bound[1][1] if len(bound) == 2 else NONE
+            for k, v in reversed(recv[1]):
+                out = mk_cond(self.mk_cmp('==', key, k), v, out)
+            term = out
         if record:
             self._seq += 1
             self.calls.append(CallRec(e, name, callee, quals, lib, recv, dict(bound), norm_pc(pc), term, self, self._seq))
@@ -1138,6 +1147,11 @@ def mk_index(b, i):
         for ent in b[1]:
             if len(ent) == 2 and ent[0] == i and all(len(x) == 2 for x in b[1]):
                 return ent[1]
+        # {True: a, False: b}[test]
+        if len(b[1]) == 2 and all(len(x) == 2 for x in b[1]) and {b[1][0][0], b[1][1][0]} == {TRUE, FALSE} \
+                and i[0] in ('cmp', 'not', 'and', 'or'):
+            d = dict(b[1])
+            return mk_cond(i, d[TRUE], d[FALSE])
     return ('index', b, i)
 
 
